@@ -634,6 +634,10 @@ where
                                 cursor = re_chars.next().map(|(step2_pos, step2)| {
                                     (step1_pos, &re_str[step2_pos..], step2_pos, step2)
                                 });
+                                if cursor.is_none() {
+                                    // A lone final backslash: keep the tail, the regex crate rejects it.
+                                    unescaped.push_str(&re_str[last_pos..]);
+                                }
                                 continue 'outer;
                             }
                         } else {
